@@ -778,6 +778,7 @@ Proof.
     destruct (negb (forallb _ hfs)); [discriminate|].
     destruct (negb (o_check o)).
     { intros H. exists hfs. split; auto. eapply add_cell_some_topo; eauto. }
+    destruct (negb (length (hfs_vertex_set m hfs) =? 8)); [discriminate|].
     destruct (check_halfface_ordering m hfs).
     { intros H. exists hfs. split; auto. eapply add_cell_some_topo; eauto. }
     destruct (reorder_bottom m hfs) as [b|] eqn:B; [|discriminate].
@@ -1961,6 +1962,7 @@ Proof.
   - destruct (negb (length hfs =? 6)); [discriminate|].
     destruct (negb (forallb _ hfs)); [discriminate|].
     destruct (negb (o_check o)); [apply nodel_add_cell_some|].
+    destruct (negb (length (hfs_vertex_set m hfs) =? 8)); [discriminate|].
     destruct (check_halfface_ordering m hfs); [apply nodel_add_cell_some|].
     destruct (reorder_bottom m hfs) as [b|]; [|discriminate].
     destruct (all_some (upd 1 (Some b) (reorder_top m hfs))) as [l|]; [|discriminate].
